@@ -382,6 +382,14 @@ func (s *Session) parseRcptTo(args string) (string, error) {
 
 	args = strings.TrimSpace(args[3:])
 
+	// The address ends at the closing bracket; ESMTP parameters may follow it
+	// (RCPT TO:<address> NOTIFY=NEVER) and are not part of the address
+	if strings.HasPrefix(args, "<") {
+		if end := strings.Index(args, ">"); end >= 0 {
+			args = args[:end+1]
+		}
+	}
+
 	// Remove angle brackets if present
 	args = strings.TrimPrefix(args, "<")
 	args = strings.TrimSuffix(args, ">")
